@@ -110,7 +110,12 @@ def write_string(o, s, pos, force):
         if s and "\r" not in s and o.flip(0.3):
             # triple quotes take the same escapes as single quotes (the body is the escaped text)
             o.receipts.append(("norm", '"""', s, o.line, o.col))
-            o.w('"""' + esc + '"""')
+            body = esc
+            if "\n" in s and o.flip(0.5) and not any(l.lstrip(" ").startswith("```") for l in s.split("\n")):
+                # a triple-quoted string may span lines: real line breaks inside the quotes are content, and so are
+                # the blanks before and after them
+                body = "".join({"\\": "\\\\", '"': '\\"', "\t": "\\t"}.get(ch, ch) for ch in s)
+            o.w('"""' + body + '"""')
             return
     o.w(c)
 
